@@ -66,14 +66,23 @@ fn cycle_refs<T>(this: Link<T>) -> HashMap<Link<T>, usize> {
         #[cfg(cactusref_verif)]
         crate::__verif::add(&crate::__verif::TRACE_EDGES, links.iter().len());
         for (&link, &strong) in links.iter() {
-            if let Kind::Forward | Kind::Loopback = link.kind() {
-                cycle_owned_refs
-                    .entry(link)
-                    .and_modify(|count| *count += strong)
-                    .or_insert(strong);
-                discovered.push(link);
-            } else {
-                cycle_owned_refs.entry(link.as_forward()).or_default();
+            match link.kind() {
+                Kind::Forward => {
+                    cycle_owned_refs
+                        .entry(link)
+                        .and_modify(|count| *count += strong)
+                        .or_insert(strong);
+                    discovered.push(link);
+                }
+                Kind::Backward => {
+                    cycle_owned_refs.entry(link.as_forward()).or_default();
+                }
+                // Self-adoptions have no effect: a loopback link does not log
+                // a strong reference and points at `node` itself. Following it
+                // would visit `node` a second time under a different key,
+                // which double counts all of its forward links and makes
+                // `node` appear twice in the returned map.
+                Kind::Loopback => {}
             }
         }
     }
